@@ -212,7 +212,7 @@ func solveAll(obls []*Obligation, dir string, jobs int, timeoutS int, thorough b
 					os.Remove(gf)
 				}
 			}
-			if r.Status == o.Expect || (o.Expect == "sat" && r.Status == "unknown") {
+			if os.Getenv("GOVC_KEEPALL") == "" && (r.Status == o.Expect || (o.Expect == "sat" && r.Status == "unknown")) {
 				os.Remove(file)
 			}
 		}(i, o)
